@@ -68,9 +68,11 @@ def key_of(uid):
     return 's' + uid if isinstance(uid, str) else 'i%d' % uid
 
 
-def tagged_policy(key, tag, bad=None):
+def tagged_policy(key, tag, bad=None, fixed_desc=False):
     from vakt.policy import Policy
-    desc = 't%d' % tag
+    # fixed_desc: every policy of the history carries the same description, so that an update changes nothing
+    # but the elements (the tag is then read off the action)
+    desc = 'tX' if fixed_desc else 't%d' % tag
     if bad == 'dict_description':
         desc = {'x': 1}
     elif bad == 'lambda_description':
@@ -100,6 +102,9 @@ def render_policy(p):
     try:
         key = key_of(p.uid)
         d = p.description
+        if d == 'tX' and len(list(p.actions)) == 1 and isinstance(p.actions[0], str) and \
+                p.actions[0][:1] == 'a' and p.actions[0][1:].isdigit():
+            d = 't' + p.actions[0][1:]
         if isinstance(d, str) and d.startswith('t') and list(p.actions) == ['a' + d[1:]] and \
                 list(p.subjects) == ['s'] and list(p.resources) == ['r'] and p.effect == 'allow' and \
                 dict(p.context) == {}:
@@ -125,12 +130,25 @@ def do_op(st, backend, op):
             | ['get_all', limit, offset] | ['retrieve_all', batch]  -> canonical result token"""
     from vakt.exceptions import PolicyExistsError
     kind = op[0]
+    fixed = len(op) > 4 and op[4] == 'X'
+    try:
+        objs = st.__dict__.setdefault('_vf_objs', {})
+    except Exception:  # noqa
+        objs = {}
     try:
         if kind == 'add':
-            st.add(tagged_policy(op[1], op[2], bad_kind(backend, op) if op[3] else None))
+            p = tagged_policy(op[1], op[2], bad_kind(backend, op) if op[3] else None, fixed)
+            st.add(p)
+            objs[op[1]] = p
+            return 'ok'
+        if kind == 'readd':
+            # add the very Policy object that was handed to the last successful add/update of this key
+            st.add(objs[op[1]])
             return 'ok'
         if kind == 'update':
-            st.update(tagged_policy(op[1], op[2], bad_kind(backend, op) if op[3] else None))
+            p = tagged_policy(op[1], op[2], bad_kind(backend, op) if op[3] else None, fixed)
+            st.update(p)
+            objs[op[1]] = p
             return 'ok'
         if kind == 'delete':
             st.delete(uid_of(op[1]))
@@ -161,7 +179,7 @@ def do_op(st, backend, op):
         if kind == 'retrieve_all':
             return 'list:' + render_list(list(st.retrieve_all(op[1])))
     except PolicyExistsError:
-        if kind == 'add' and not op[3]:
+        if (kind == 'add' and not op[3]) or kind == 'readd':
             return 'exists'
         return 'rejected'
     except ValueError:
@@ -179,6 +197,8 @@ def e_op(op):
     kind = op[0]
     if kind == 'add':
         return '(Add %s %s %s)' % (e_pstr(op[1]), e_N(op[2]), e_bool(op[3]))
+    if kind == 'readd':
+        return '(Add %s %s false)' % (e_pstr(op[1]), e_N(op[2]))
     if kind == 'update':
         return '(Update %s %s %s)' % (e_pstr(op[1]), e_N(op[2]), e_bool(op[3]))
     if kind == 'delete':
@@ -192,24 +212,34 @@ def e_op(op):
     raise ValueError(op)
 
 
-def gen_ops(rng, backend, n, keys, allow_bad=True, mut_share=0.6):
+def gen_ops(rng, backend, n, keys, allow_bad=True, mut_share=0.6, readd=True):
     """a history; returns ops; tags are unique per generated policy"""
     ops = []
     tag = 0
     present = set()
+    obj = {}                       # key -> tag of the Policy object last handed to an add/update that returned
+    fixed = ['X'] if rng.random() < 0.25 else []        # a history whose updates change nothing but the elements
     for _ in range(n):
         r = rng.random()
         k = rng.choice(keys)
-        if r < mut_share * 0.45:
+        if readd and obj and rng.random() < 0.07:
+            k2 = rng.choice(sorted(obj))
+            ops.append(['readd', k2, obj[k2]])          # the same object again
+            present.add(k2)
+        elif r < mut_share * 0.45:
             tag += 1
             bad = allow_bad and backend in BAD_ADD and k not in present and rng.random() < 0.15
-            ops.append(['add', k, tag, bad])
+            ops.append(['add', k, tag, bad] + fixed)
             if not bad:
+                if k not in present:
+                    obj[k] = tag
                 present.add(k)
         elif r < mut_share * 0.75:
             tag += 1
             bad = allow_bad and backend in BAD_UPDATE and k in present and rng.random() < 0.2
-            ops.append(['update', k, tag, bad])
+            ops.append(['update', k, tag, bad] + fixed)
+            if not bad:
+                obj[k] = tag
         elif r < mut_share:
             ops.append(['delete', k])
             present.discard(k)
